@@ -10,7 +10,7 @@ from vlib.cbuild import VERIF, REPO, BuildError
 from vlib.xdrv import log
 sys.path.insert(0, os.path.join(VERIF, 'tools'))
 import xapi
-from props.c18 import Gen, core_corpus
+from props.c18 import Gen, core_corpus, core_sessions
 
 FINDINGS_FILE = None
 JAVA_SRC = ['Xraylib.java', 'compoundData.java', 'compoundDataBase.java', 'compoundDataNIST.java', 'radioNuclideData.java', 'Crystal_Struct.java', 'Crystal_Atom.java']
@@ -35,6 +35,8 @@ TRUSTED = [
     'harness/java/stub/.../Complex.java stands in for commons-math3 (constructor + two getters; any other use fails to compile)',
     'java/pr_data_java.c compiled against libprdata of the working tree writes xraylib.dat (the Java loader is part of what is compared)',
     'comparison: integers and strings exact, doubles to 1e-10 relative (2e-6 for crystal-dependent methods, reason in the report); exception <=> C error',
+    'history sessions: the ops @k / !mut / !show / !copy / $k of harness/java/XrlDrv.java (what counts as "public mutable part" is decided by java.lang.reflect: public fields, '
+    'array elements, arrays behind public zero-argument getters) and their C twins in harness/xdrv.c dispatch_hist (the caller-side edits of the malloc\'ed copies)',
 ]
 
 def close(a, b, rel):
@@ -66,6 +68,238 @@ def build_java_classes(jd):
     pj = subprocess.run(['javac', '-encoding', 'UTF-8', '-nowarn', '-d', os.path.join(jd, 'classes'), stub] + srcs + extra, capture_output=True, text=True)
     if pj.returncode != 0: raise BuildError('javac failed on /repo/java (with the Complex stub): ' + (pj.stdout + pj.stderr)[-3000:])
     return srcs, extra
+
+
+# ------------------------------------------------------------------------------------------------ history sessions
+# Every object the C library hands out is a malloc'ed deep copy that the caller owns (property C15): whatever the caller writes into it, the
+# next answer of the library is the same.  "Returns the same value as the C function for every argument tuple" therefore includes every call
+# HISTORY in which the caller has edited what it was given.  A session is a list of driver lines run in ONE process on each side, in order
+# (ops: harness/java/XrlDrv.java, harness/xdrv.c):
+#     <call>                 plain call (compared with C as everywhere else)
+#     @<k> <call>            call and keep the returned object in slot k
+#     !mut <k> E             write a sentinel into every public mutable part of the object in slot k (Java: found by reflection)
+#     !show <k> E            print the object in slot k               !copy <j> <k> E   slot j = copy of slot k (public copy constructor)
+#     <crystal fn> $<k> ..   the crystal function on the kept object
+HIST_OPS = ('!mut', '!copy', '!drop')
+PRIM = ('int', 'double')
+
+def _is_obj_ret(ret):
+    return ret not in PRIM
+
+class History:
+    """generator + judge of the history sessions of C19"""
+    def __init__(self, chk, ctx, b, jm, cat, ranges):
+        self.chk = chk; self.ctx = ctx; self.b = b; self.jm = jm; self.cat = cat; self.ranges = ranges
+        self.rng = __import__('random').Random(ctx.seed * 104729 + 19)
+        self.protos = {p['name']: p for p in b['protos']}
+        self.quick = ctx.tier == 'quick'
+        # enumerated by reflection on the compiled classes: every public static method that returns something other than int / double
+        self.obj_methods = sorted((n, tuple(a), r) for n, sigs in jm.items() for a, r in sigs if _is_obj_ret(r))
+        # ... and every method that takes a String or an object (the functions whose answer depends on a catalogue entry)
+        self.dep_methods = sorted((n, tuple(a), r) for n, sigs in jm.items() for a, r in sigs if any(x not in PRIM for x in a))
+
+    # ---- arguments
+    def pname(self, fn, k):
+        p = self.protos.get(fn)
+        if p and k < len(p['params']) - 1: return p['params'][k][0]
+        return ''
+    def dflt(self, fn, k, ty, name):
+        """default value of parameter k of `fn` in a call about the catalogue entry `name`"""
+        rng = self.rng; pn = self.pname(fn, k)
+        if ty in ('String', 'Crystal_Struct') or ty not in PRIM: return xapi.sarg(name)
+        if ty == 'int':
+            if pn in ('i_miller', 'j_miller', 'k_miller'): return str(rng.choice([1, 1, 2, 0, -1, 3]))
+            if pn.endswith('_flag'): return str(rng.choice([2, 2, 1, 0]))
+            if pn == 'Z': return str(rng.choice([1, 8, 14, 26, 47, 82, 92]))
+            return str(rng.choice([0, 1, 2, 3]))
+        if pn in ('theta', 'phi', 'rel_angle'): return xapi.hx(rng.choice([1.0, 0.5, math.pi / 3, 2.0]))
+        if pn == 'density': return xapi.hx(rng.choice([1.0, 2.5, 0.0]))
+        if pn == 'debye_factor': return xapi.hx(rng.choice([1.0, 0.5]))
+        if pn in ('q', 'pz'): return xapi.hx(rng.choice([0.0, 0.5, 2.0]))
+        return xapi.hx(rng.choice([1.0, 5.9, 8.0, 17.44, 30.0, 59.54, 100.0, round(rng.uniform(1.0, 200.0), 3)]))       # energies
+    def call(self, fn, sig, name, fixed=None):
+        a = [(fixed[k] if fixed and k in fixed else self.dflt(fn, k, ty, name)) for k, ty in enumerate(sig)]
+        return '%s%s E' % (fn, ''.join(' ' + x for x in a))
+
+    def dependents(self, name, cap=None):
+        """one call of every method that takes a String / an object, about the entry `name` (a NIST name is a compound for the 22 *_CP functions and
+        Refractive_Index*, a crystal name names the crystal of the crystal functions, a formula is parsed, ...; where the name means nothing to a
+        method, C reports an error and Java must throw)"""
+        ms = self.dep_methods
+        if cap is not None and len(ms) > cap:
+            must = [m for m in ms if m[0] in ('CS_Total_CP', 'Refractive_Index', 'GetCompoundDataNISTByName', 'GetRadioNuclideDataByName', 'Crystal_GetCrystal',
+                                              'Crystal_UnitCellVolume', 'Crystal_F_H_StructureFactor', 'CompoundParser', 'Bragg_angle')]
+            rest = [m for m in ms if m not in must]
+            ms = sorted(must + self.rng.sample(rest, max(0, cap - len(must))))
+        return [self.call(fn, sig, name) for fn, sig, r in ms]
+
+    def on_slot(self, line, k, name):
+        """a dependent call on the kept object instead of a fresh lookup by name (object-typed parameters only)"""
+        t = line.split(' '); fn = t[0]
+        sigs = [a for a, r in self.jm.get(fn, []) if len(a) == len(t) - 2]
+        if not sigs: return None
+        out = list(t); hit = False
+        for i, ty in enumerate(sigs[0]):
+            if ty not in PRIM and ty != 'String' and t[i + 1] == xapi.sarg(name): out[i + 1] = '$%d' % k; hit = True
+        return ' '.join(out) if hit else None
+
+    def session(self, fn, sig, ret, args_line, name, siblings, cap):
+        """the history around ONE object-returning call `args_line` (about catalogue entry / string `name`)"""
+        deps = self.dependents(name, cap)
+        # calls on the kept object: the drivers resolve an object-typed parameter given by name through Crystal_GetCrystal(name), so `$1` stands for it
+        # exactly when slot 1 was filled by that call
+        cls_takes = [l2 for l2 in (self.on_slot(l, 1, name) for l in deps) if l2] if args_line == 'Crystal_GetCrystal %s E' % xapi.sarg(name) else []
+        s = [args_line] + siblings + deps                                   # what the library says before anybody edits anything
+        s += ['@0 ' + args_line, '@1 ' + args_line, '!mut 0 E',            # two results alive, the first is edited
+              '!show 1 E'] + cls_takes                                      #   ... the second one is as it was, and computes as before
+        s += ['@2 ' + args_line] + siblings + deps                          #   ... and so is everything the library answers
+        s += ['!copy 3 2 E', '!mut 3 E', '!show 2 E',                       # a copy made by the public copy constructor is the caller's too
+              '!copy 4 1 E', '!mut 1 E', '!show 4 E', '!mut 2 E', '!mut 4 E']           # ... in both directions; then everything handed out is edited
+        s += [args_line] + siblings + deps
+        s += ['!drop %d E' % k for k in range(5)]
+        return s
+
+    def generate(self):
+        """-> list of dict(method, about, lines)"""
+        cat = self.cat; rng = self.rng; out = []
+        nist = cat['nist']; nuc = cat['nuclides']; cry = cat['crystals']
+        cap = None          # every dependent method in both tiers (35 calls per block: a session is ~170 lines, the whole set runs in seconds)
+        forms = list(xapi.FORMULAS_OK)
+        some = lambda lst, k: lst if (not self.quick or len(lst) <= k) else sorted(rng.sample(lst, k))
+        known = {}
+        def add(fn, sig, ret, line, name, siblings=()):
+            out.append(dict(method=fn, about=name, lines=self.session(fn, sig, ret, line, name, list(siblings), cap)))
+        for fn, sig, ret in self.obj_methods:
+            if fn == 'GetCompoundDataNISTByIndex' and sig == ('int',):
+                for i, n in enumerate(nist):
+                    add(fn, sig, ret, '%s %d E' % (fn, i), n, ['GetCompoundDataNISTByName %s E' % xapi.sarg(n)] + (['GetCompoundDataNISTList E'] if i % 30 == 0 else []))
+                for i in (-1, len(nist)): add(fn, sig, ret, '%s %d E' % (fn, i), nist[0])
+            elif fn == 'GetCompoundDataNISTByName' and sig == ('String',):
+                for i, n in enumerate(nist): add(fn, sig, ret, '%s %s E' % (fn, xapi.sarg(n)), n, ['GetCompoundDataNISTByIndex %d E' % i])
+                add(fn, sig, ret, '%s %s E' % (fn, xapi.sarg('no such compound')), 'no such compound')
+            elif fn == 'GetRadioNuclideDataByIndex' and sig == ('int',):
+                for i, n in enumerate(nuc): add(fn, sig, ret, '%s %d E' % (fn, i), n, ['GetRadioNuclideDataByName %s E' % xapi.sarg(n), 'GetRadioNuclideDataList E'])
+                for i in (-1, len(nuc)): add(fn, sig, ret, '%s %d E' % (fn, i), nuc[0])
+            elif fn == 'GetRadioNuclideDataByName' and sig == ('String',):
+                for i, n in enumerate(nuc): add(fn, sig, ret, '%s %s E' % (fn, xapi.sarg(n)), n, ['GetRadioNuclideDataByIndex %d E' % i])
+            elif fn == 'Crystal_GetCrystal' and sig == ('String',):
+                for n in cry: add(fn, sig, ret, '%s %s E' % (fn, xapi.sarg(n)), n, ['Crystal_GetCrystalsList E'] if n in (cry[0], cry[-1]) else [])
+                add(fn, sig, ret, '%s %s E' % (fn, xapi.sarg('NoSuchCrystal')), 'NoSuchCrystal')
+            elif sig == () and ret == 'String[]':
+                # a name list: afterwards every kind of lookup of its first, a middle and its last entry
+                pool = nist if 'NIST' in fn else nuc if 'Nuclide' in fn else cry if 'Crystal' in fn else nist
+                for n in (pool[0], pool[len(pool) // 2], pool[-1]): add(fn, sig, ret, '%s E' % fn, n, ['GetCompoundDataNISTList E', 'GetRadioNuclideDataList E', 'Crystal_GetCrystalsList E'])
+            elif fn == 'CompoundParser' and sig == ('String',):
+                for f in some(forms, 12) + some(nist, 3) + ['', 'h2o']: add(fn, sig, ret, '%s %s E' % (fn, xapi.sarg(f)), f)
+            else:
+                # any other object-returning method — Complex / double[] / String results today, whatever reflection finds tomorrow: arguments by type, about
+                # entries of every catalogue and formulas
+                names = some(nist, 4) + some(cry, 4) + some(nuc, 2) + some(forms, 4)
+                if not any(x not in PRIM for x in sig): names = names[:6]
+                for n in names: add(fn, sig, ret, self.call(fn, sig, n), n)
+        return out
+
+    # ---- run + judge
+    def run(self, sessions, cenv=None, groups=12):
+        """every session in order inside a process of each side (several processes, each with its share of the sessions) -> [(c answers, java answers)]"""
+        if not sessions: return []
+        k = max(1, min(groups, len(sessions)))
+        parts = [list(range(i, len(sessions), k)) for i in range(k)]
+        def one(idx):
+            lines = [l for i in idx for l in sessions[i]['lines']]
+            c = xdrv.run_driver([self.b['cdrv']], lines, cenv, None)
+            j = xdrv.run_driver(self.b['jcmd'], lines, None, None)
+            res = {}; pos = 0
+            for i in idx:
+                n = len(sessions[i]['lines']); res[i] = (c[pos:pos + n], j[pos:pos + n]); pos += n
+            return res
+        res = {}
+        with ThreadPoolExecutor(max_workers=k) as ex:
+            for r in ex.map(one, parts): res.update(r)
+        return [res[i] for i in range(len(sessions))]
+
+    def judge(self, lines, c_ans, j_ans, stats, cfg=''):
+        """-> list of violations dict(i, what, cls, key, c, java) of one session; updates stats (counts, mutated paths)"""
+        viols = []; made = {}; first = {}
+        if any(a.startswith('died') for a in c_ans):
+            stats['hist_sessions_c_aborted'] = stats.get('hist_sessions_c_aborted', 0) + 1; return viols
+        for i, (l, ca, ja) in enumerate(zip(lines, c_ans, j_ans)):
+            t = l.split(' ')
+            if t[0] in HIST_OPS:
+                if not ja.startswith('ok') or not ca.startswith('ok'):
+                    viols.append(dict(i=i, key=l, cls='driver', what='a driver could not perform the session op', c=ca[:300], java=ja[:300]))
+                elif t[0] == '!mut':
+                    w = ja.split(' ')
+                    stats['hist_writes'] = stats.get('hist_writes', 0) + int(w[1])
+                    mp = stats.setdefault('hist_mutated_paths', {})
+                    for x in w[2:]:
+                        m = re.fullmatch(r'(.*?)(\d+)', x)
+                        if m: mp[m.group(1)] = mp.get(m.group(1), 0) + int(m.group(2))
+                elif t[0] == '!copy':
+                    if ja.split(' ')[1:2] == ['1']: made[t[1]] = made.get(t[2])
+                    else: made.pop(t[1], None)
+                continue
+            # an observation: translate into the plain call it is an observation of
+            if t[0].startswith('@'):
+                plain = ' '.join(t[1:]); pc = xdrv.parse_c(ca)
+                if pc['kind'] == 'ok' and pc['code'] is None and ja.startswith('ok'): made[t[0][1:]] = plain
+                else: made.pop(t[0][1:], None)
+            elif t[0] == '!show':
+                plain = made.get(t[1])
+                if plain is None: continue
+            else:
+                plain = l
+                if any(x.startswith('$') for x in t[1:-1]):
+                    t2 = list(t); ok = True
+                    for k, x in enumerate(t):
+                        if x.startswith('$') and 0 < k < len(t) - 1:
+                            src = made.get(x[1:])
+                            if not src or not src.startswith('Crystal_GetCrystal s'): ok = False; break
+                            t2[k] = src.split(' ')[1]               # the name the kept object was looked up by
+                    if not ok: continue
+                    plain = ' '.join(t2)
+            stats['hist_observations'] = stats.get('hist_observations', 0) + 1
+            v = self.chk.judge(plain, ca, ja, stats)
+            if v:
+                viols.append(dict(v, i=i, key=l, c=ca[:300], java=ja[:300])); continue
+            # the Java port against itself: no public method changes the library's state, so the same call has the same answer at every point of a session
+            if plain in first and first[plain][1] != ja:
+                viols.append(dict(i=i, key=l, cls='history', c=ca[:300], java=ja[:300],
+                                  what='the Java answer to `%s` changed within the session: line %d said %s' % (plain[:80], first[plain][0] + 1, first[plain][1][:120])))
+            first.setdefault(plain, (i, ja))
+        return viols
+
+    def minimise(self, sess, v, cenv, cfg):
+        """the session alone in fresh processes; then without the calls that are not needed to see the disagreement"""
+        lines = sess['lines']
+        def fails(ls):
+            c = xdrv.run_driver([self.b['cdrv']], ls, cenv, None); j = xdrv.run_driver(self.b['jcmd'], ls, None, None)
+            st = dict(_tight=True) if cfg == '@file' else {}
+            vs = [x for x in self.judge(ls, c, j, st, cfg) if x['cls'] == v['cls']]
+            return vs[0] if vs else None
+        v1 = fails(lines[:v['i'] + 1])
+        if not v1:
+            # the whole session alone: it may disagree later than it did in the shared process (where an earlier session had already done the damage)
+            c = xdrv.run_driver([self.b['cdrv']], lines, cenv, None); j = xdrv.run_driver(self.b['jcmd'], lines, None, None)
+            vs = self.judge(lines, c, j, dict(_tight=True) if cfg == '@file' else {}, cfg)
+            if not vs: return None, None
+            v = vs[0]; v1 = v
+        base = lines[:v['i'] + 1]
+        t = base[-1].split(' ')
+        keep_fn = {t[0] if not t[0].startswith('@') else t[1]}
+        cand = [l for l in base[:-1] if l.split(' ')[0].startswith(('@', '!')) or l == base[-1] or (l.split(' ')[0] in keep_fn)] + [base[-1]]
+        v2 = fails(cand) if len(cand) < len(base) else None
+        if v2:
+            # drop the session ops that are not needed either
+            cur = cand
+            for _ in range(2):
+                for k in range(len(cur) - 2, -1, -1):
+                    if not cur[k].startswith('!'): continue
+                    tr = cur[:k] + cur[k + 1:]
+                    vv = fails(tr)
+                    if vv: cur = tr; v2 = vv
+            return cur, v2
+        return base, v1
 
 
 class C19:
@@ -225,9 +459,43 @@ class C19:
             out.setdefault(mm.group(1), []).append(([x for x in mm.group(2).split(',') if x], mm.group(3)))
         return out
 
+    def classes(self, b):
+        """public fields (final or MUTABLE), array getters and copy constructors of every class a public static method returns, by reflection"""
+        return xdrv.run_driver(b['jcmd'], ['!classes'], chunk=None)[0].split(' ')[1:]
+
+    def account_session(self, hist, se, c, j, stats, dist, viols, cfg, minimise=True):
+        d = dist.setdefault('history:' + se['method'] + cfg, dict(calls=0, ok=0, err=0, c_abort=0, disagree=0))
+        d['calls'] += len(se['lines'])
+        for l, ca in zip(se['lines'], c):
+            pc = xdrv.parse_c(ca)
+            if pc['kind'] == 'ok' and pc['code'] is None: d['ok'] += 1
+            elif pc['kind'] == 'ok': d['err'] += 1
+            elif pc['kind'] == 'died': d['c_abort'] += 1
+            elif l.split(' ')[0].startswith('@') and ca.startswith('bad-op'): se['c_bad_op'] = True
+        tight = stats.get('_tight')
+        if cfg == '@file': stats['_tight'] = True
+        try:
+            vs = hist.judge(se['lines'], c, j, stats, cfg)
+        finally:
+            if not tight: stats.pop('_tight', None)
+        if not vs: return
+        d['disagree'] += len(vs)
+        v = vs[0]; lines = se['lines'][:v['i'] + 1]
+        # the failing input is a session that fails when run ALONE in fresh processes (under a changed library an earlier session of the same process may
+        # already have damaged the entry): per class (method, kind) sessions are re-run alone until one is confirmed (at most 4 tries a class, 60 in all)
+        key = (se['method'], v['cls'], cfg); tr = self._hist_tries = getattr(self, '_hist_tries', {})
+        if minimise and tr.get(key, 0) >= 0 and tr.get(key, 0) < 4 and sum(abs(x) for x in tr.values()) < 60:
+            cenv = dict(XDRV_CRYSTALS=os.path.join(REPO, 'data', 'Crystals.dat')) if cfg == '@file' else None
+            ml, mv = hist.minimise(se, v, cenv, cfg)
+            if ml: lines = ml; v = dict(mv, alone=True); tr[key] = -1 - tr.get(key, 0)          # confirmed: negative
+            else: v = dict(v, alone=False); tr[key] = tr.get(key, 0) + 1
+        elif minimise: v = dict(v, alone=None)
+        else: v = dict(v, alone=True)
+        viols.append(dict(v, session=lines, method=se['method'], about=se['about'], cfg=cfg, more=len(vs) - 1))
+
     def plan(self, ctx, b):
         """methods with a C counterpart; signature agreement is part of the comparison"""
-        jm = self.methods(b); protos = {p['name']: p for p in b['protos']}
+        jm = self.methods(b); protos = {p['name']: p for p in b['protos']}; self.jm = jm
         JT = {'int': 'int', 'double': 'double', 'str': 'String', 'cs': 'Crystal_Struct'}
         scalar = []; sig_mismatch = []
         for n, p in protos.items():
@@ -281,12 +549,29 @@ class C19:
                 viols.append(dict(v, key=line, c=ca[:300], java=ja[:300], cfg=cfg))
         samples = []
         if replay:
-            rl = [l.strip() for l in open(replay) if l.strip() and not l.startswith('#')]
-            if not rl: log('replay file names no call; running the whole check'); replay = None
+            rl = []; rsess = []; cur = None
+            for l in open(replay):
+                l = l.strip()
+                m = re.match(r'# session(?: cfg=(\S+))?(?: method=(\S+))?', l)
+                if m: cur = dict(cfg=(m.group(1) or '').replace('-', ''), method=m.group(2) or '?', about='replay', lines=[]); rsess.append(cur); continue
+                if l.startswith('# end-session'): cur = None; continue
+                if not l or l.startswith('#'): continue
+                (cur['lines'] if cur is not None else rl).append(l)
+            if any(l.split(' ')[0].startswith(('@', '!')) for l in rl):       # session lines without a header: one session
+                rsess.append(dict(cfg='', method='?', about='replay', lines=rl)); rl = []
+            if not rl and not rsess: log('replay file names no call; running the whole check'); replay = None
             else:
                 c, j = self.two_way(b, rl, None)
                 for l, ca, ja in zip(rl, c, j):
                     print('%s\n   C    : %s\n   Java : %s' % (l, ca[:300], ja[:300])); account(l, ca, ja)
+                if rsess:
+                    hist = History(self, ctx, b, self.jm, None, None)
+                    for sess in rsess:       # each session in fresh processes
+                        cenv = dict(XDRV_CRYSTALS=os.path.join(REPO, 'data', 'Crystals.dat')) if sess['cfg'] == '@file' else None
+                        (c, j), = hist.run([sess], cenv, 1)
+                        for l, ca, ja in zip(sess['lines'], c, j): print('%s\n   C    : %s\n   Java : %s' % (l, ca[:300], ja[:300]))
+                        self.account_session(hist, sess, c, j, stats, dist, viols, sess['cfg'], minimise=False)
+                        n_eval += len(sess['lines'])
         if not replay:
             tables = dict(protos=b['protos'], wrappers=[], scalar_functions=plan['scalar'])
             g = Gen(ctx, tables, b['cdrv'], cpp=False)
@@ -313,6 +598,31 @@ class C19:
                 for l, ca, ja in zip(kl, ck, jk): account(l, ca, ja, '@kissel' if kind == 'synth' else '@kissel-real')
                 stats.setdefault('kissel_configs', []).append(kind)
             ctx.tick('kissel_config', t)
+            # call HISTORIES: every object-returning method (enumerated by reflection), the returned objects edited by the caller in every public mutable part
+            t = time.time()
+            hist = History(self, ctx, b, self.jm, g.catalog, g.ranges)
+            sess = [dict(method='corpus', about='corpus/C19-*.lines', lines=ls) for ls in core_sessions('C19')] + hist.generate()
+            res = hist.run(sess)
+            for se, (hc, hj) in zip(sess, res): self.account_session(hist, se, hc, hj, stats, dist, viols, '')
+            n_eval += sum(len(se['lines']) for se in sess)
+            cs = [se for se in sess if any(l.split(' ')[0].lstrip('@') in CRYSTAL_FNS or 'Crystal_GetCrystalsList' in l for l in se['lines'][:1])]
+            cenv = dict(XDRV_CRYSTALS=os.path.join(REPO, 'data', 'Crystals.dat'))
+            res = hist.run(cs, cenv)
+            stats['_tight'] = True
+            for se, (hc, hj) in zip(cs, res): self.account_session(hist, se, hc, hj, stats, dist, viols, '@file')
+            stats.pop('_tight')
+            n_eval += sum(len(se['lines']) for se in cs)
+            covered = sorted({se['method'] for se in sess})
+            stats['history'] = dict(object_returning_methods=['%s(%s)->%s' % (n, ','.join(a), r) for n, a, r in hist.obj_methods],
+                                    dependent_methods=len(hist.dep_methods), sessions=len(sess), sessions_file_config=len(cs),
+                                    lines=sum(len(se['lines']) for se in sess) + sum(len(se['lines']) for se in cs),
+                                    sessions_per_method={m: sum(1 for se in sess if se['method'] == m) for m in covered},
+                                    classes=self.classes(b))
+            missing = [n for n, a, r in hist.obj_methods if n not in covered]
+            if missing: problems.append('object-returning Java methods without a history session: %s' % missing)
+            no_twin = sorted({se['method'] for se in sess if se.get('c_bad_op')})
+            if no_twin: problems.append('the C reference driver has no twin for the history of: %s (harness/xdrv.c dispatch_hist)' % no_twin)
+            ctx.tick('history', t)
             samples = [dict(call=lines[i], c=c[i][:200], java=j[i][:200]) for i in sorted(ctx.rng.sample(range(len(lines)), 8))]
             ctx.rule = rule.replace('every _XRL_FUNCTION wrapper', 'every Java method with a C counterpart (%d scalar + %d object/crystal methods)' % (len(plan['scalar']), len(plan['hand'])))
         return self.report(ctx, b, plan, known, problems, viols, stats, dist, samples, n_eval, replay)
@@ -322,6 +632,8 @@ class C19:
         """-> finding key for a disagreement: method + argument class"""
         t = v['key'].split(' ')
         fn = t[0]
+        if v.get('session') is not None:
+            return '%s history %s' % (v.get('method', '?'), v['cls'])
         if fn == 'LineEnergy' and len(t) >= 3:          # the C repairs of this function are per line macro: so are the findings
             return '%s line=%s %s' % (fn, self.line_names.get(int(t[2]), t[2]), v['cls'])
         return '%s %s' % (fn, v['cls'])
@@ -363,16 +675,32 @@ class C19:
         if new:
             body = '# violation of C19: the Java method and the C function of the same name disagree (replay: ./check C19 --replay <this file>)\n'
             seen = set(); k = 0
+            # of the disagreeing sessions of a class the one confirmed alone speaks for the class
+            best = {}
+            for v in new:
+                if v.get('session') is not None:
+                    c = self.classify(v, known)
+                    if c not in best or (v.get('alone') is True and best[c].get('alone') is not True): best[c] = v
             for v in new:
                 cls = self.classify(v, known)
                 if cls in seen: continue
+                if v.get('session') is not None: v = best[cls]
                 seen.add(cls); k += 1
                 if k > 15: break
+                if v.get('session') is not None and v.get('alone') is not True:
+                    body += '# [%s] %s — seen only in a process in which earlier sessions had run (the session does not disagree when run alone): no lines given\n' % (cls, v['what'])
+                    continue
+                if v.get('session') is not None:
+                    body += ('# [%s] %s\n# C    : %s\n# Java : %s\n# the lines below are ONE session: run in order in one process on each side (./check C19 --replay runs it so); the LAST line is the one that disagrees\n'
+                             '# session cfg=%s method=%s about=%s\n%s\n# end-session\n') % (cls, v['what'], v['c'], v['java'], v.get('cfg') or '-', v['method'], xapi.esc(str(v['about'])), '\n'.join(v['session']))
+                    continue
                 key = self.shrink(b, v) if k <= 4 else v['key']
                 body += '# [%s] %s\n# C    : %s\n# Java : %s\n%s\n' % (cls, v['what'], v['c'], v['java'], key)
             body += '# %d disagreeing calls in %d classes (method, kind)\n' % (len(new), len({self.classify(v, known) for v in new}))
+            for pb in problems: body += '# also: %s\n' % pb
             path = core.write_replay(ctx, body)
-            print('VIOLATION property=C19 replay=%s' % path)
+            has_input = any(l.strip() and not l.startswith('#') for l in body.splitlines())
+            print('VIOLATION property=C19 replay=%s%s' % (path, '' if has_input else ' no-failing-input-found'))
             exit_code = 1
         elif problems:
             body = '# C19: the comparison could not be set up as designed; no disagreeing call was found among %d\n' % n_eval
